@@ -1,10 +1,12 @@
 // C12 — address sets match by CIDR containment, in userspace and in kernel key form.
 // Bounded-exhaustive enumeration (engine Q): every prefix set of size <= K over a closed pool of
 // boundary prefixes x every boundary probe derived from the set itself, decided four ways:
-//   ref   : containment written from the property text (v4 as v4-mapped)
-//   trie  : pkg/trie  NewTrieFromPrefixes + HasPrefix(Prefix2bin128(addr/full))
-//   kern  : Linux LPM-trie lookup semantics over the bytes cidrToBpfLpmKey emits (real-mode encoder)
-//   route : rule text -> parser -> config.New -> builder -> BuildUserspace -> ControlPlane.Route
+//
+//	ref   : containment written from the property text (v4 as v4-mapped)
+//	trie  : pkg/trie  NewTrieFromPrefixes + HasPrefix(Prefix2bin128(addr/full))
+//	kern  : Linux LPM-trie lookup semantics over the bytes cidrToBpfLpmKey emits (real-mode encoder)
+//	route : rule text -> parser -> config.New -> builder -> BuildUserspace -> ControlPlane.Route
+//
 // plus the storage-sharing clause on rule pairs.
 package main
 
@@ -18,6 +20,7 @@ import (
 	"github.com/daeuniverse/dae/common/consts"
 	"github.com/daeuniverse/dae/component/routing"
 	"github.com/daeuniverse/dae/control"
+	"github.com/daeuniverse/dae/pkg/config_parser"
 	"github.com/daeuniverse/dae/pkg/trie"
 	"github.com/daeuniverse/dae/verifx/vlib"
 )
@@ -292,7 +295,9 @@ func main() {
 		text := confText(fmt.Sprintf("dip(%s) -> g1\nsip(%s) -> g2", quoteAll(pa), quoteAll(pb)))
 		var v *control.VerifRouting
 		var err error
-		if p, msg := vlib.Try(func() { v, err = control.VerifCompileRouting(text, []string{"g1", "g2"}, []routing.RulesOptimizer{&routing.AliasOptimizer{}}) }); p {
+		if p, msg := vlib.Try(func() {
+			v, err = control.VerifCompileRouting(text, []string{"g1", "g2"}, []routing.RulesOptimizer{&routing.AliasOptimizer{}})
+		}); p {
 			r.Violation(fmt.Sprintf("leg=route-build panic dip=%v sip=%v", pa, pb), msg)
 			return
 		}
@@ -421,6 +426,85 @@ func main() {
 		}
 	})
 	r.Set("bare_literal_sets", len(bareSets))
+
+	// Leg 6: the prefix sets the control plane would write for the kernel, taken in BOTH production build orders —
+	// cold start (kernel material read before BuildUserspace) and staged reload / rollback (builder.KernspaceSnapshot()
+	// first, BuildUserspace() next, then the snapshot is installed) — for programs with 1..7 sets (BuildUserspace builds
+	// more than 4 tries in parallel). For every rule the set stored at the rule's LPM index, in kernel key form under
+	// Linux LPM lookup, must contain exactly the addresses the written set contains, and the userspace matcher too.
+	type orderCase struct {
+		n      int
+		reload bool
+		rot    int
+	}
+	var ocs []orderCase
+	for _, n := range []int{1, 2, 4, 5, 7} {
+		for _, reload := range []bool{false, true} {
+			for rot := 0; rot < 3; rot++ {
+				ocs = append(ocs, orderCase{n, reload, rot})
+			}
+		}
+	}
+	r.Set("build_order_programs", len(ocs))
+	r.ParallelFor(len(ocs), func(i int) {
+		oc := ocs[i]
+		var lines []string
+		var written [][]netip.Prefix
+		groups := []string{"g1", "g2"}
+		for k := 0; k < oc.n; k++ {
+			a, b := pool[(oc.rot*5+k*3)%len(pool)], pool[(oc.rot*5+k*3+7)%len(pool)]
+			fn := "dip"
+			if k%2 == 1 {
+				fn = "sip"
+			}
+			lines = append(lines, fmt.Sprintf("%s(%s) -> %s", fn, quoteAll([]string{a, b}), groups[k%2]))
+			written = append(written, parseSet([]string{a, b}))
+		}
+		text := confText(strings.Join(lines, "\n"))
+		sections, perr := config_parser.Parse(text)
+		if perr != nil {
+			r.Violation(fmt.Sprintf("leg=order-build parse n=%d", oc.n), perr.Error())
+			return
+		}
+		var v *control.VerifRouting
+		var err error
+		if p, msg := vlib.Try(func() {
+			v, err = control.VerifCompileRoutingSectionsOrder(sections, groups, []routing.RulesOptimizer{&routing.AliasOptimizer{}}, oc.reload)
+		}); p {
+			r.Violation(fmt.Sprintf("leg=order-build panic n=%d reload=%v", oc.n, oc.reload), msg)
+			return
+		}
+		if err != nil {
+			r.Violation(fmt.Sprintf("leg=order-build error n=%d reload=%v", oc.n, oc.reload), err.Error())
+			return
+		}
+		rules, sets := v.KernRules(), v.LpmSets()
+		if len(rules) != oc.n+1 {
+			r.Violation(fmt.Sprintf("leg=order-build shape n=%d reload=%v rules=%d", oc.n, oc.reload, len(rules)), text)
+			return
+		}
+		nviol := 0
+		for k := 0; k < oc.n; k++ {
+			idx := int(binary.LittleEndian.Uint32(rules[k].Value[:4]))
+			if idx >= len(sets) {
+				r.Violation(fmt.Sprintf("leg=order n=%d reload=%v rule=%d: LPM index %d beyond the %d sets to install", oc.n, oc.reload, k, idx, len(sets)), text)
+				continue
+			}
+			var keys [][]byte
+			for _, p := range sets[idx] {
+				keys = append(keys, control.VerifLpmKeyBytes(p))
+			}
+			for _, pr := range probesFor(written[k]) {
+				evals.Add(1)
+				want := refContains(written[k], pr)
+				if got := kernLookup(keys, pr); got != want && nviol < 4 {
+					nviol++
+					r.Violation(fmt.Sprintf("leg=order n=%d reload=%v rule=%d set=%v probe=%v: kernel-side set (as installed in this build order, %d keys) says %v, the written set says %v",
+						oc.n, oc.reload, k, written[k], netip.AddrFrom16(pr), len(keys), got, want), text)
+				}
+			}
+		}
+	})
 
 	// Leg 5: MAC sets (exact match) through the pipeline
 	macs := []string{"00:00:00:00:00:01", "02:42:ac:11:00:02", "ff:ff:ff:ff:ff:ff", "02:42:ac:11:00:03"}
